@@ -654,3 +654,213 @@ Proof.
       * eapply stop_called_stable; eauto.
       * exists (e :: evs), s'. cbn [forallb run length]. rewrite Hi, Hs. repeat split; auto. lia.
 Qed.
+
+(* ------------------------------------------------------------------ multisets as weighted sums *)
+Lemma msg_eq_dec : forall a b : msg, {a = b} + {a <> b}.
+Proof. decide equality; try apply bool_dec; try apply Nat.eq_dec; apply Z.eq_dec. Qed.
+
+Lemma count_occ_wsum l x : count_occ msg_eq_dec l x = wsum (fun y => if msg_eq_dec y x then 1 else 0) l.
+Proof. induction l as [|a t IH]; cbn; auto. destruct (msg_eq_dec a x); rewrite IH; auto. Qed.
+
+Lemma perm_of_wsum (l1 l2 : list msg) : (forall f, wsum f l1 = wsum f l2) -> Permutation l1 l2.
+Proof.
+  intros H. apply (Permutation_count_occ msg_eq_dec). intros x. rewrite !count_occ_wsum. apply H.
+Qed.
+
+Lemma wsum_perm {A} (f : A -> nat) l1 l2 : Permutation l1 l2 -> wsum f l1 = wsum f l2.
+Proof. induction 1; cbn; lia. Qed.
+
+Definition opt_list (o : option msg) : list msg := match o with Some m => [m] | None => [] end.
+Definition sub_msgs (sb : sub) : list msg := pre sb ++ post sb ++ opt_list (inh sb).
+Definition worker_msgs (x : wst) : list msg := match x with WHave m | WProc m => [m] | _ => [] end.
+
+Lemma wsum_flat_map {A} (f : msg -> nat) (h : A -> list msg) l :
+  wsum f (flat_map h l) = wsum (fun a => wsum f (h a)) l.
+Proof. induction l; cbn; auto. rewrite wsum_app, IHl. auto. Qed.
+
+Lemma wsum_ext {A} (f h : A -> nat) l : (forall a, f a = h a) -> wsum f l = wsum h l.
+Proof. intros E. induction l; cbn; auto. Qed.
+
+Lemma subw_msgs f l : wsum (subw f) l = wsum f (flat_map sub_msgs l).
+Proof.
+  rewrite wsum_flat_map. apply wsum_ext. intros sb. unfold subw, sub_msgs.
+  rewrite !wsum_app. destruct (inh sb); cbn; lia.
+Qed.
+
+Lemma wrkw_msgs f l : wsum (wrkw f) l = wsum f (flat_map worker_msgs l).
+Proof. rewrite wsum_flat_map. apply wsum_ext. intros x. destruct x; cbn; lia. Qed.
+
+(** conservation, in list form: each published request is on the wire, dropped by the broker or
+    accepted; each accepted request is in exactly one place *)
+Lemma conservation_perm n w q s : reachable n w q s ->
+  Permutation (published (g s)) (wire s ++ dropped (g s) ++ accepted (g s))
+  /\ Permutation (accepted (g s))
+       (flat_map sub_msgs (subs s) ++ noreply (g s) ++ workc s ++ flat_map worker_msgs (workers s)
+        ++ finished (g s))
+  /\ lost (g s) = []
+  /\ replied (g s) = map mid (filter has_out (finished (g s))).
+Proof.
+  intros Hr. destruct (reachable_inv _ _ _ _ Hr) as [HI (C1 & C2 & C3 & C4)].
+  destruct HI as (_ & _ & _ & _ & _ & _ & _ & _ & _ & _ & _ & I12 & _).
+  split; [|split; [|split]]; auto.
+  - apply perm_of_wsum. intros f. rewrite !wsum_app. rewrite C1. lia.
+  - apply perm_of_wsum. intros f. rewrite !wsum_app. rewrite C2, I12, subw_msgs, wrkw_msgs. cbn. lia.
+Qed.
+
+(* ------------------------------------------------------------------ safety *)
+Lemma wsum_zero_Forall {A} (f : A -> nat) l : wsum f l = 0 -> Forall (fun a => f a = 0) l.
+Proof. induction l; cbn; intros H; constructor; try apply IHl; lia. Qed.
+
+Definition quiet (sb : sub) : Prop := pre sb = [] /\ post sb = [] /\ inh sb = None /\ broker sb = false.
+
+Lemma fired_quiet n w q s : Inv n w q s -> 3 <= srank (serve s) -> fired s = true -> Forall quiet (subs s).
+Proof.
+  intros (I1 & I2 & I3 & I4 & I5 & I6 & _) Hr Hf.
+  apply (I5 Hr) in Hf. rewrite I3 in Hf. apply wsum_zero_Forall in Hf.
+  pose proof (Forall_and _ _ _ I2 Hf) as HF. eapply Forall_impl; [|exact HF].
+  intros sb [Hsb Hb]. unfold barw in Hb. destruct (bar sb) eqn:E; try discriminate.
+  unfold sub_inv in Hsb. decompose [and] Hsb. unfold quiet. fwd. intuition.
+Qed.
+
+(** close(workC) is reached only when no handler is running or can run again; the send on the
+    closed channel (a panic) and the loss of a pending request never happen *)
+Lemma no_send_on_closed n w q s : reachable n w q s ->
+  crashed s = false /\ lost (g s) = [] /\ (closed s = true -> Forall quiet (subs s)).
+Proof.
+  intros Hr. destruct (reachable_inv _ _ _ _ Hr) as [HI _]. pose proof HI as HI'.
+  destruct HI as (I1 & I2 & I3 & I4 & I5 & I6 & I7 & I8 & I9 & I10 & I11 & I12 & _).
+  split; [|split]; auto. intros Hc. apply I7 in Hc. eapply fired_quiet; eauto; try lia. apply I6. lia.
+Qed.
+
+(* ------------------------------------------------------------------ the final state *)
+Lemma wsum_all_zero {A} (f : A -> nat) l : Forall (fun a => f a = 0) l -> wsum f l = 0.
+Proof. induction 1; cbn; lia. Qed.
+
+(** when Serve has returned: every accepted request was either discarded for lack of a reply
+    subject or processed to the end (exactly once: the lists are equal as multisets), the
+    replies published are exactly those of the processed requests that produced output,
+    everything started was finished, nothing is left anywhere *)
+Lemma returned_all_done n w q s : reachable n w q s -> 1 <= w -> serve s = SReturned ->
+  stop s = TReturned
+  /\ Permutation (accepted (g s)) (noreply (g s) ++ finished (g s))
+  /\ Permutation (startedl (g s)) (finished (g s))
+  /\ replied (g s) = map mid (filter has_out (finished (g s)))
+  /\ workc s = [] /\ Forall quiet (subs s) /\ Forall (fun x => x = WExited) (workers s).
+Proof.
+  intros Hr Hw Hsv. destruct (reachable_inv _ _ _ _ Hr) as [HI (C1 & C2 & C3 & C4)]. pose proof HI as HI'.
+  destruct HI as (I1 & I2 & I3 & I4 & I5 & I6 & I7 & I8 & I9 & I10 & I11 & I12 & L1 & L2 & L3).
+  rewrite Hsv in *. cbn in *.
+  assert (forallb is_exited (workers s) = true) as Hex by auto.
+  assert (Forall (fun x => x = WExited) (workers s)) as HexF.
+  { apply Forall_forall. intros x Hx. rewrite forallb_forall in Hex. specialize (Hex x Hx). destruct x; try discriminate; auto. }
+  assert (workc s = []) as Hwc.
+  { apply I9. destruct (workers s) as [|x t]; cbn in *; try lia. apply andb_true_iff in Hex as [Hx _]. rewrite Hx. auto. }
+  assert (Forall quiet (subs s)) as Hq.
+  { eapply fired_quiet; eauto; rewrite ?Hsv; cbn; try lia; try (apply I6; lia). }
+  assert (forall f, wsum (subw f) (subs s) = 0) as Hs0.
+  { intros f. apply wsum_all_zero. eapply Forall_impl; [|exact Hq]. intros sb (Q1 & Q2 & Q3 & _).
+    unfold subw. rewrite Q1, Q2, Q3. reflexivity. }
+  assert (forall f, wsum (wrkw f) (workers s) = 0) as Hw0.
+  { intros f. apply wsum_all_zero. eapply Forall_impl; [|exact HexF]. intros x ->. reflexivity. }
+  assert (forall f, wsum (procw f) (workers s) = 0) as Hp0.
+  { intros f. apply wsum_all_zero. eapply Forall_impl; [|exact HexF]. intros x ->. reflexivity. }
+  split; [exact I1|]. split; [|split; [|split; [|split; [|split]]]]; auto.
+  - apply perm_of_wsum. intros f. rewrite wsum_app, C2, I12, Hs0, Hw0, Hwc. cbn. lia.
+  - apply perm_of_wsum. intros f. rewrite C3, Hp0. lia.
+Qed.
+
+(* ------------------------------------------------------------------ before / after Stop *)
+(** a request that reaches the broker before Stop is called is accepted *)
+Lemma before_stop_accepted n w q s m rest : reachable n w q s ->
+  stop s = TNotCalled -> wire s = m :: rest -> msub m < n ->
+  exists s', step s EArrive = Some s' /\ accepted (g s') = accepted (g s) ++ [m] /\ wire s' = rest.
+Proof.
+  intros Hr Hst Hwire Hlt. destruct (reachable_inv _ _ _ _ Hr) as [HI _].
+  destruct HI as (I1 & I2 & I3 & I4 & I5 & I6 & I7 & I8 & I9 & I10 & I11 & I12 & L1 & L2 & L3).
+  assert (serve s = SRunning) as Hsv.
+  { destruct (serve s); cbn in I1; auto; intuition congruence. }
+  rewrite Hsv in *. cbn in *.
+  destruct (nth_error (subs s) (msub m)) as [sb|] eqn:Hn.
+  2:{ apply nth_error_None in Hn. lia. }
+  pose proof (Forall_nth_error _ _ _ _ I2 Hn) as Hsb. unfold sub_inv in Hsb. decompose [and] Hsb. fwd.
+  assert (broker sb = true) as Hb by (destruct (broker sb); auto; intuition congruence).
+  unfold step, step_arrive. rewrite I11, Hwire, Hn, Hb.
+  destruct (bar sb); try discriminate. eexists. split; [reflexivity|]. cbn. auto.
+Qed.
+
+Lemma srank_mono s e s' : step s e = Some s' -> srank (serve s) <= srank (serve s').
+Proof.
+  intros Hs. unfold step in Hs. destruct (crashed s); try discriminate.
+  destruct e;
+  unfold step_arrive, step_pop, step_drop, step_enq, step_take, step_start, step_done, step_exit,
+         step_drainsub, step_brokerunsub, step_checkdrained, step_barrier in Hs;
+  dmatch; inv_some; cbn; try rewrite Heqs0; cbn; try lia.
+Qed.
+
+Lemma flushed_accepts_nothing n w q s e s' :
+  Inv n w q s -> 2 <= srank (serve s) -> step s e = Some s' -> accepted (g s') = accepted (g s).
+Proof.
+  intros (I1 & I2 & _) Hr Hs. unfold step in Hs. destruct (crashed s); try discriminate.
+  destruct e;
+  unfold step_arrive, step_pop, step_drop, step_enq, step_take, step_start, step_done, step_exit,
+         step_drainsub, step_brokerunsub, step_checkdrained, step_barrier in Hs;
+  dmatch; inv_some; cbn; auto.
+  all: exfalso; pose proof (Forall_nth_error _ _ _ _ I2 Heqo) as Hsb; unfold sub_inv in Hsb; decompose [and] Hsb; fwd;
+    intuition congruence.
+Qed.
+
+(** once Serve's Flush has returned - in particular once Stop has returned - nothing is accepted any more *)
+Lemma none_after_stop n w q evs : forall s s', reachable n w q s ->
+  stop s = TReturned -> run s evs = Some s' -> accepted (g s') = accepted (g s) /\ stop s' = TReturned.
+Proof.
+  induction evs as [|e r IH]; intros s s' Hr Hst Hrun; cbn in Hrun.
+  - injection Hrun as <-. auto.
+  - destruct (step s e) as [s1|] eqn:Hs; try discriminate.
+    destruct (reachable_inv _ _ _ _ Hr) as [HI _].
+    assert (5 <= srank (serve s)) as H5.
+    { destruct HI as (I1 & _). destruct (serve s); cbn in *; try lia; intuition congruence. }
+    assert (reachable n w q s1) as Hr1 by (apply (reachable_run n w q s [e] s1); auto; cbn; rewrite Hs; auto).
+    assert (stop s1 = TReturned) as Hst1.
+    { pose proof (srank_mono _ _ _ Hs). destruct (reachable_inv _ _ _ _ Hr1) as [(J1 & _) _].
+      destruct (serve s1); cbn in *; try lia; auto. }
+    destruct (IH s1 s' Hr1 Hst1 Hrun) as [Ha Hb]. split; auto.
+    rewrite Ha. eapply flushed_accepts_nothing; eauto. lia.
+Qed.
+
+(** only accepted requests are ever started *)
+Lemma wsum_le {A} (f h : A -> nat) l : (forall a, f a <= h a) -> wsum f l <= wsum h l.
+Proof. intros E. induction l; cbn; auto. specialize (E a). lia. Qed.
+
+Lemma started_incl_accepted n w q s m : reachable n w q s -> In m (startedl (g s)) -> In m (accepted (g s)).
+Proof.
+  intros Hr Hin. destruct (reachable_inv _ _ _ _ Hr) as [_ (C1 & C2 & C3 & C4)].
+  apply (count_occ_In msg_eq_dec). apply (count_occ_In msg_eq_dec) in Hin.
+  rewrite count_occ_wsum in *. rewrite C3 in Hin. rewrite C2.
+  pose proof (wsum_le (procw (fun y => if msg_eq_dec y m then 1 else 0)) (wrkw (fun y => if msg_eq_dec y m then 1 else 0)) (workers s)) as Hle.
+  assert (forall a, procw (fun y => if msg_eq_dec y m then 1 else 0) a <= wrkw (fun y => if msg_eq_dec y m then 1 else 0) a) as Hpt
+    by (intros a; destruct a; cbn; lia).
+  specialize (Hle Hpt). lia.
+Qed.
+
+(** distinct request ids => no id is answered twice *)
+Lemma NoDup_map_filter {A B} (f : A -> B) p l : NoDup (map f l) -> NoDup (map f (filter p l)).
+Proof.
+  induction l as [|a t IH]; cbn; intros H; auto. inversion H; subst.
+  destruct (p a); cbn; auto. constructor; auto. intros Hin. apply H2.
+  apply in_map_iff in Hin as (x & Hx & Hf). apply filter_In in Hf as [Hf _]. apply in_map_iff. eauto.
+Qed.
+
+Lemma NoDup_app_r {A} (l1 l2 : list A) : NoDup (l1 ++ l2) -> NoDup l2.
+Proof. induction l1; cbn; auto. intros H. inversion H; auto. Qed.
+
+Lemma replies_unique n w q s : reachable n w q s ->
+  NoDup (map mid (published (g s))) -> NoDup (replied (g s)).
+Proof.
+  intros Hr Hnd. destruct (conservation_perm _ _ _ _ Hr) as (P1 & P2 & _ & P4).
+  rewrite P4. apply NoDup_map_filter.
+  assert (NoDup (map mid (accepted (g s)))) as Ha.
+  { eapply Permutation_NoDup in Hnd; [|apply Permutation_map; exact P1].
+    rewrite !map_app in Hnd. apply NoDup_app_r in Hnd. apply NoDup_app_r in Hnd. auto. }
+  eapply Permutation_NoDup in Ha; [|apply Permutation_map; exact P2].
+  rewrite !map_app in Ha. do 4 apply NoDup_app_r in Ha. auto.
+Qed.
